@@ -112,15 +112,31 @@ def resolveDesc : List (SN τ) → List DN → List Tok → Option Bytes
       | some (.leaf ..) => some (d.vals.headD [])
       | _ => none
 
-/-- `getUniqueKey`: the values joined by U+00B7, or nothing if any is missing -/
-def uniqueKey (kids : List (SN τ)) (entry : DN) (u : List (List Tok)) : Option Bytes :=
-  (u.mapM (resolveDesc kids entry.kids)).map fun vs => (vs.intersperse [0xC2, 0xB7]).flatten
+/-- decimal digits of a number, as `%d` writes them -/
+def decDigits : Nat → Nat → List Nat
+  | 0, _ => []
+  | f + 1, n => if n < 10 then [48 + n] else decDigits f (n / 10) ++ [48 + n % 10]
 
-/-- the groups of ≥ 2 entries with the same non-empty unique key, as lists of entry names -/
+def dec (n : Nat) : List Nat := decDigits (n + 1) n
+
+/-- the key of a tuple of values: each value preceded by its length and a colon (after the repair; before
+    it the values were joined by U+00B7 and different tuples could collide) -/
+def encTuple : List Bytes → Bytes
+  | [] => []
+  | v :: r => dec v.length ++ 58 :: (v ++ encTuple r)
+
+/-- `getUniqueKey`: nothing if any value is missing -/
+def uniqueKey (kids : List (SN τ)) (entry : DN) (u : List (List Tok)) : Option Bytes :=
+  (u.mapM (resolveDesc kids entry.kids)).map encTuple
+
+/-- classes of size ≥ 2 of a keyed list of entry names, in order of first occurrence -/
+def groups {κ : Type} [DecidableEq κ] (l : List (κ × Tok)) : List (List Tok) :=
+  let keys := (l.map (·.1)).eraseDups
+  (keys.map fun k => (l.filter (·.1 = k)).map (·.2)).filter (·.length ≥ 2)
+
+/-- the groups of ≥ 2 entries with the same unique key, as lists of entry names -/
 def uniqueGroups (kids : List (SN τ)) (entries : List DN) (u : List (List Tok)) : List (List Tok) :=
-  let keyed := entries.filterMap fun e => (uniqueKey kids e u).map fun k => (k, e.name)
-  let keys := (keyed.map (·.1)).eraseDups
-  (keys.map fun k => (keyed.filter (·.1 = k)).map (·.2)).filter (·.length ≥ 2)
+  groups (entries.filterMap fun e => (uniqueKey kids e u).map fun k => (k, e.name))
 
 /-! ### the walk over the data -/
 
